@@ -5266,7 +5266,9 @@ impl BytecodeVM {
                             // Try iterator protocol
                             match interp.collect_iterator_values(src_val) {
                                 Ok(Some(values)) => values,
-                                Ok(None) => Vec::new(),
+                                Ok(None) => {
+                                    return Err(JsError::type_error("Spread value is not iterable"));
+                                }
                                 Err(e) => return Err(e),
                             }
                         }
@@ -5276,7 +5278,10 @@ impl BytecodeVM {
                         .chars()
                         .map(|c| JsValue::String(JsString::from(c.to_string())))
                         .collect(),
-                    _ => Vec::new(),
+                    _ => {
+                        // undefined, null, numbers, booleans... have no Symbol.iterator
+                        return Err(JsError::type_error("Spread value is not iterable"));
+                    }
                 };
 
                 // Append elements to the destination array
